@@ -359,6 +359,60 @@ def rule_read_gated(ctx):
         ctx.ok(site(fn, bi), "read only inside bool::then on active.load of the same entry, behind the null check")
 
 
+def rule_get_verdicts(ctx):
+    """`get(i)` may answer None for exactly two reasons: the bucket is not allocated, or the entry's flag is not set.
+    Any further condition under which it answers None (a cached length, a `published` counter, a range test on the
+    index) can hide an element whose push has already returned: such counters order completions, not indices."""
+    from cfg import decision_paths
+    fn = get_fn(ctx.facts, "nucleo", VEC + "get")
+    paths = decision_paths(fn)
+    ctx.floor("decision paths of Vec::get", len(paths), 2)
+    n_none = 0
+    for conds, res in paths:
+        if res is None:
+            continue
+        r = strip_casts(res)
+        is_none = r[0] == "agg" and str(r[1]).endswith("Option::None")
+        extra = []
+        ok_reason = False
+        for d, chosen, allv in conds:
+            e = strip_casts(d)
+            neg = False
+            while e[0] == "un" and e[1] == "Not":
+                e = strip_casts(e[2])
+                neg = not neg
+            truth = ((chosen != 0) if chosen is not None else True) != neg
+            if e[0] == "call" and str(e[1]).endswith("::is_null"):
+                if truth:
+                    ok_reason = True
+                continue
+            if e[0] == "discr" and any(x[0] == "call" and str(x[1]).endswith("NonNull::<T>::new") for x in walk(e)):
+                if chosen == 0:
+                    ok_reason = True
+                continue
+            if e[0] == "call" and str(e[1]).endswith("::load") and classify(fn, e[2][0]) == "Entry.active":
+                if not truth:
+                    ok_reason = True
+                continue
+            if e[0] == "overflowflag":
+                continue
+            extra.append((e, truth))
+        if is_none:
+            n_none += 1
+            if ok_reason:
+                ctx.ok(site(fn, 0), "None because the bucket is not allocated / the entry is not active")
+            else:
+                why = "; ".join("%s is %s" % (show(e)[:70], t_) for e, t_ in extra) or "no condition at all"
+                ctx.violation(VEC + "get|none-verdict|%d" % n_none, site(fn, 0),
+                              "get answers None when %s: that is neither `bucket not allocated` nor `entry not active`, so an element whose push has returned can be reported "
+                              "missing (completions are not ordered by index)" % why)
+        elif extra:
+            # a Some / flag-dependent answer behind an extra condition is fine as long as the other side is not None
+            pass
+    if n_none == 0:
+        ctx.ok(site(fn, 0), "no unconditional None in Vec::get (the verdict is `active.load(..).then(..)`)")
+
+
 def rule_bucket_race(ctx):
     fn = get_fn(ctx.facts, "nucleo", VEC + "get_or_alloc")
     cas = [(bi, t) for bi, t in fn.calls(lambda t: (atomic_op(t) or "").startswith("compare_exchange"))]
@@ -839,5 +893,6 @@ def rules(ctx):
     ctx.run_rule("C08.lying-iter", rule_lying_iter)
     ctx.run_rule("C08.init-before-publish", rule_init_before_publish)
     ctx.run_rule("C08.read-gated", rule_read_gated)
+    ctx.run_rule("C08.get-verdicts", rule_get_verdicts)
     ctx.run_rule("C08.bucket-race", rule_bucket_race)
     ctx.run_rule("C08.len-agree", rule_len_agree)
